@@ -92,17 +92,139 @@ def check_mask(res, reg, kind, desc, tol=1e-8):
     return worst
 
 
+def check_large_mask(res, rng, desc):
+    """masks of more than a million pixels: still float64 and still exact on the boundary pixels (400 sampled ones; every pixel is too many)"""
+    r = 520.0 + rng.random()
+    reg = CirclePixelRegion(PixCoord(rng.uniform(-3, 3), rng.uniform(-3, 3)), r)
+    m = reg.to_mask(mode='exact')
+    b = m.bbox
+    if m.data.dtype != np.float64:
+        return res.violation(f'exact mask of a {b.shape[0]} x {b.shape[1]} pixel circle has dtype {m.data.dtype}', case=desc)
+    for _ in range(400):
+        a = rng.uniform(0, 2 * math.pi)
+        ix, iy = int(round(reg.center.x + r * math.cos(a))), int(round(reg.center.y + r * math.sin(a)))
+        i, j = ix - b.ixmin, iy - b.iymin
+        if not (0 <= i < b.shape[1] and 0 <= j < b.shape[0]):
+            continue
+        want = pixel_overlap(reg.center.x, reg.center.y, r, r, 0.0, ix, iy)
+        if abs(float(m.data[j, i]) - want) > 1e-8:
+            return res.violation(f'pixel ({ix}, {iy}) of a large mask: {float(m.data[j, i])!r}, true overlap {want!r}', case=desc)
+    area = math.pi * r * r
+    if abs(float(m.data.sum(dtype=np.float64)) - area) > 1e-9 * area:
+        res.violation(f'large mask: sum {float(m.data.sum())!r} differs from the analytic area {area!r}', case=desc)
+
+
 def check_convergence(res, reg, desc):
     ex = reg.to_mask(mode='exact').data if not isinstance(reg, (RectanglePixelRegion, PolygonPixelRegion)) else None
+    nref = 200
     if ex is None:
-        ex = reg.to_mask(mode='subpixels', subpixels=400).data
-    for n in (1, 2, 5, 10, 20, 50):
+        # no exact mode for these shapes: the reference is a dense sampling computed here with numpy from the definition
+        # (not by the library, whose own sampling is what is being judged)
+        from sampled_masks import expected_mask
+        ex = expected_mask(reg, reg.bounding_box, nref)[0]
+    if not check_sample_count(res, reg, desc):
+        return
+    for n in (1, 2, 5, 10, 20, 50, 100):
         sub = reg.to_mask(mode='subpixels', subpixels=n).data
-        bound = 8.0 / n + 4.0 / (n * n) + (8.0 / 400 if isinstance(reg, (RectanglePixelRegion, PolygonPixelRegion)) else 0) + 1e-9
+        bound = 8.0 / n + 4.0 / (n * n) + (8.0 / nref if isinstance(reg, (RectanglePixelRegion, PolygonPixelRegion)) else 0) + 1e-9
         err = float(np.abs(sub - ex).max())
         if err > bound:
             res.violation(f'subpixels={n}: max pixel error {err} exceeds the boundary-length bound {bound}', case=desc)
             return
+
+
+def _clip(poly, xlo, xhi, ylo, yhi):
+    """Sutherland-Hodgman: a simple polygon clipped to an axis-parallel box"""
+    def clip(pts, inside, inter):
+        out = []
+        for i, p in enumerate(pts):
+            q = pts[(i + 1) % len(pts)]
+            if inside(p):
+                out.append(p)
+                if not inside(q):
+                    out.append(inter(p, q))
+            elif inside(q):
+                out.append(inter(p, q))
+        return out
+    ix = lambda c: (lambda p, q: (c, p[1] + (q[1] - p[1]) * (c - p[0]) / (q[0] - p[0])))
+    iy = lambda c: (lambda p, q: (p[0] + (q[0] - p[0]) * (c - p[1]) / (q[1] - p[1]), c))
+    pts = list(poly)
+    for inside, inter in ((lambda p: p[0] >= xlo, ix(xlo)), (lambda p: p[0] <= xhi, ix(xhi)), (lambda p: p[1] >= ylo, iy(ylo)), (lambda p: p[1] <= yhi, iy(yhi))):
+        if not pts:
+            break
+        pts = clip(pts, inside, inter)
+    return pts
+
+
+def _shoelace(pts):
+    if len(pts) < 3:
+        return 0.0
+    return 0.5 * abs(sum(pts[i][0] * pts[(i + 1) % len(pts)][1] - pts[(i + 1) % len(pts)][0] * pts[i][1] for i in range(len(pts))))
+
+
+def _outline_in_box(poly, xlo, xhi, ylo, yhi):
+    """length of the polygon outline inside the closed box (Liang-Barsky per edge)"""
+    total = 0.0
+    for i, p in enumerate(poly):
+        q = poly[(i + 1) % len(poly)]
+        dx, dy = q[0] - p[0], q[1] - p[1]
+        t0, t1 = 0.0, 1.0
+        ok = True
+        for d, a, lo, hi in ((dx, p[0], xlo, xhi), (dy, p[1], ylo, yhi)):
+            if d == 0:
+                if a < lo or a > hi:
+                    ok = False
+                    break
+            else:
+                ta, tb = (lo - a) / d, (hi - a) / d
+                if ta > tb:
+                    ta, tb = tb, ta
+                t0, t1 = max(t0, ta), min(t1, tb)
+                if t0 > t1:
+                    ok = False
+                    break
+        if ok:
+            total += (t1 - t0) * math.hypot(dx, dy)
+    return total
+
+
+def check_sample_count(res, reg, desc):
+    """convergence presupposes that a subpixel mask really is the count of n x n samples, for every n (also n beyond any 'reasonable'
+    value and n prime): compared with the numpy reference of bounded/sampled_masks.py"""
+    from sampled_masks import expected_mask
+    for n in (37, 101):
+        if n * n * reg.bounding_box.shape[0] * reg.bounding_box.shape[1] > 3_000_000:
+            continue
+        m = reg.to_mask(mode='subpixels', subpixels=n)
+        want, slack = expected_mask(reg, m.bbox, n)
+        bad = np.abs(m.data - want) > slack + 1e-12
+        if bad.any():
+            j, i = np.argwhere(bad)[0]
+            res.violation(f'subpixels={n}: pixel ({m.bbox.ixmin + i}, {m.bbox.iymin + j}) holds {m.data[j, i]!r}; {n}x{n} sample centres give {want[j, i]!r}',
+                          case=desc, region=str(reg))
+            return False
+    return True
+
+
+def check_polygon_convergence(res, reg, verts, desc):
+    """convex polygons / rectangles have no exact mode: the true overlap of every pixel is computed here by clipping, and the subpixel
+    mask must approach it within (outline length inside the pixel) / n, the bound the property states"""
+    if not check_sample_count(res, reg, desc):
+        return
+    bb = reg.bounding_box
+    for n in (3, 10, 40, 160):
+        m = reg.to_mask(mode='subpixels', subpixels=n)
+        for j in range(bb.shape[0]):
+            for i in range(bb.shape[1]):
+                xlo, ylo = bb.ixmin + i - 0.5, bb.iymin + j - 0.5
+                true = _shoelace(_clip(verts, xlo, xlo + 1, ylo, ylo + 1))
+                L = _outline_in_box(verts, xlo, xlo + 1, ylo, ylo + 1)
+                # each sample cell (side 1/n) is misjudged only if the outline passes through it: at most ~ (2 L n + 4) cells of area 1/n^2
+                bound = 2.0 * L / n + 4.0 / (n * n) + 1e-9
+                if abs(m.data[j, i] - true) > bound:
+                    res.violation(f'subpixels={n}: pixel ({bb.ixmin + i}, {bb.iymin + j}) holds {m.data[j, i]!r}, true overlap {true!r}, outline length in the '
+                                  f'pixel {L!r}: error exceeds {bound!r}', case=desc, region=str(reg))
+                    return
 
 
 def main():
@@ -154,6 +276,34 @@ def main():
                 check_convergence(res, reg, desc)
             except Exception as e:
                 res.violation(f'{type(e).__name__}: {e}', case=desc)
+    for k in range(1 if tier == 'quick' else 4):
+        desc = ('large-mask', k)
+        res.case(desc)
+        try:
+            check_large_mask(res, rng, desc)
+        except Exception as e:
+            res.violation(f'{type(e).__name__}: {e}', case=desc)
+    for k in range(6 if tier == 'quick' else 60):
+        mag = rng.choice((0.8, 2.6, 6.3))
+        if k % 3 == 0:
+            reg = RegularPolygonPixelRegion(PixCoord(rng.uniform(-9, 9), rng.uniform(-9, 9)), rng.choice((3, 4, 5, 7)), mag, rng.uniform(0, 360) * u.deg)
+            verts = list(zip(map(float, reg.vertices.x), map(float, reg.vertices.y)))
+        elif k % 3 == 1:
+            vx = [rng.uniform(-3, 3) * mag for _ in range(3)]
+            vy = [rng.uniform(-3, 3) * mag for _ in range(3)]
+            reg = PolygonPixelRegion(PixCoord(vx, vy))
+            verts = list(zip(vx, vy))
+        else:
+            reg = RectanglePixelRegion(PixCoord(rng.uniform(-9, 9), rng.uniform(-9, 9)), mag * rng.uniform(0.5, 3), mag * rng.uniform(0.5, 3), rng.uniform(0, 360) * u.deg)
+            c, s_ = math.cos(reg.angle.to_value('rad')), math.sin(reg.angle.to_value('rad'))
+            verts = [(reg.center.x + c * a - s_ * b, reg.center.y + s_ * a + c * b) for a, b in
+                     ((-reg.width / 2, -reg.height / 2), (reg.width / 2, -reg.height / 2), (reg.width / 2, reg.height / 2), (-reg.width / 2, reg.height / 2))]
+        desc = ('polygon-convergence', k, str(reg))
+        res.case(desc)
+        try:
+            check_polygon_convergence(res, reg, verts, desc)
+        except Exception as e:
+            res.violation(f'{type(e).__name__}: {e}', case=desc)
     res.write(out)
 
 
